@@ -79,6 +79,14 @@ let handle line =
            let r = (match resolve_use (package_of (bool_of_tok init) cur) (i, use) with
                     | None -> "BEYOND" | Some t -> tok_of_str t) in
            Printf.sprintf "%d\t%s\t%d\t%s\t%s" (int_of_nat i.i_dots) (tok_of_str i.i_extra) (int_of_n i.i_right) (tok_of_str use) r)
+  | ["sortdm"; budget; nodes] ->
+      (* nodes: path:bases:refs separated by | ; bases/refs comma separated or - *)
+      let ns = List.map (fun t -> match String.split_on_char ':' t with
+                 | [p; b; r] -> { n_path = n_of_int (int_of_string p); n_bases = str_of_tok b; n_refs = str_of_tok r }
+                 | _ -> failwith "node") (if nodes = "" then [] else String.split_on_char '|' nodes) in
+      (match sort_data_models (nat_of_int (int_of_string budget)) ns with
+       | None -> "ERROR"
+       | Some (sorted, upd) -> "OK\t" ^ tok_of_str (List.map (fun m -> m.n_path) sorted) ^ "\t" ^ tok_of_str upd)
   | ["c2s"; s] -> tok_of_str (camel_to_snake u0 (str_of_tok s))
   | ["s2uc"; d; s] -> tok_of_str (s2uc u0 (n_of_int (int_of_string d)) (str_of_tok s))
   | _ -> "BADREQ"
